@@ -299,7 +299,7 @@ func (e *Enc) binop(fr *Frame, b *ssa.BinOp, g string) {
 			e.assume("true", fmt.Sprintf("(= (strlen %s) (+ (strlen %s) (strlen %s)))", r, xt, yt))
 			e.assume("true", fmt.Sprintf("(= (= %s 0) (= (strlen %s) 0))", r, r))
 		case token.LSS, token.LEQ, token.GTR, token.GEQ:
-			e.d.add("(declare-fun strlt (Int Int) Bool)")
+			e.declStrlt()
 			switch b.Op {
 			case token.LSS:
 				e.setOp(fr, b, fmt.Sprintf("(strlt %s %s)", xt, yt))
@@ -564,6 +564,12 @@ func (e *Enc) instr(fr *Frame, b *ssa.BasicBlock, in ssa.Instruction, g string, 
 		e.nopanic(fr, "makeslice", g, fmt.Sprintf("(and (<= 0 %s) (<= %s %s))", ln, ln, cp), x.Pos(), "make: len in range")
 		elem := x.Type().Underlying().(*types.Slice).Elem()
 		ref, h2 := e.freshRef(h, "mk")
+		if e.isByRef(elem) {
+			st := elem.Underlying().(*types.Struct)
+			h2 = e.byrefRegion(h2, elem, ref, "0", cp, func(fi int, key, j string) string { return e.d.zeroOf(st.Field(fi).Type()) })
+			e.setOp(fr, x, fmt.Sprintf("(mk_slice %s 0 %s %s)", ref, ln, cp))
+			return h2
+		}
 		key := e.elemKey(elem)
 		base := e.hget(h2, key)
 		nt := e.define("S_"+key, e.keySort[key], fmt.Sprintf("(store %s %s ((as const (Array Int %s)) %s))", base, ref, e.d.sortOf(elem), e.d.zeroOf(elem)))
@@ -770,6 +776,11 @@ func (e *Enc) indexAddr(fr *Frame, x *ssa.IndexAddr, g string, h *Heap) {
 	case *types.Slice:
 		s := o.v.T
 		e.nopanic(fr, "index", g, fmt.Sprintf("(and (<= 0 %s) (< %s (slen %s)))", i, i, s), x.Pos(), fmt.Sprintf("index %s in range of %s", x.Index.Name(), x.X.Name()))
+		if e.isByRef(u.Elem()) {
+			// element object with identity: the pointer is a value
+			e.setOp(fr, x, elemObj("(sref "+s+")", fmt.Sprintf("(+ (soff %s) %s)", s, i)))
+			return
+		}
 		key := e.elemKey(u.Elem())
 		fr.ops[x] = Operand{a: &Addr{key: key, idx: []string{"(sref " + s + ")", fmt.Sprintf("(+ (soff %s) %s)", s, i)}, typ: u.Elem()}, ok: true}
 	case *types.Pointer:
